@@ -154,10 +154,14 @@ func TestVerifSpkFailures(t *testing.T) {
 		want := vsFresh(h, k, w)
 		bc := k.c.protocolHandlers[config.BGP].(*bgpController)
 		ghost := []string{}
-		for name := range bc.svcAds {
-			if w.K[vsSvcIdx(name)] == nil {
-				ghost = append(ghost, name)
+		if keys, ok := vbSvcAdsKeys(bc); ok {
+			for _, name := range keys {
+				if w.K[vsSvcIdx(name)] == nil {
+					ghost = append(ghost, name)
+				}
 			}
+		} else {
+			out.Stat("whitebox_skipped:svcAds", 1)
 		}
 		out.Stat("failure_scenarios", 1)
 		if vsAnnounced(got) != vsAnnounced(want) || len(ghost) > 0 {
